@@ -14,8 +14,8 @@
    [ts_in_range all]: every record timestamp t satisfies 0 <= t and
    t + accept-period < 2^64 (true of every nanosecond timestamp before year 2554;
    outside it the uint64 additions of ConsensusReady wrap). *)
-From Coq Require Import List ZArith NArith Bool.
-Require Import Mixin.Base.Res Mixin.Gen.Consts Mixin.Model.Election Mixin.Model.Quorum Mixin.Proofs.Quorum.
+From Coq Require Import List ZArith NArith Bool Permutation.
+Require Import Mixin.Base.Res Mixin.Gen.Consts Mixin.Model.Election Mixin.Model.Quorum Mixin.Proofs.Election Mixin.Proofs.Quorum.
 Import ListNotations.
 Open Scope Z_scope.
 
@@ -131,6 +131,23 @@ Theorem C10_constants :
 Proof. exact consts_sane. Qed.
 Print Assumptions C10_constants.
 
+(* The threshold and the key vector do not depend on the order in which the
+   node received the records.  storage.ReadAllNodes returns equal-timestamp
+   records in the iteration order of a Go map; LoadConsensusNodes re-sorts by
+   (timestamp, id).  The store keys a record by (timestamp, signer) and the id is
+   derived from the signer, so the (timestamp, id) pairs are pairwise distinct
+   ([distinct_keys]); that is the only hypothesis. *)
+Theorem C10_views_order_independent : forall cfg recs recs' pledging round ts final,
+  Permutation recs recs' -> distinct_keys recs ->
+  consensus_threshold cfg (load recs) ts final = consensus_threshold cfg (load recs') ts final /\
+  consensus_keys cfg (load recs) pledging round ts = consensus_keys cfg (load recs') pledging round ts /\
+  removing_at cfg (load recs) ts = removing_at cfg (load recs') ts /\
+  verify_params cfg (load recs) pledging round ts = verify_params cfg (load recs') pledging round ts.
+Proof.
+  intros cfg recs recs' pledging round ts final Hp Hd. rewrite (load_perm recs recs' Hp Hd). repeat split.
+Qed.
+Print Assumptions C10_views_order_independent.
+
 (* ---- non-vacuity ---------------------------------------------------------- *)
 
 (* 9 genesis nodes, an established chain: hypotheses of C10_intersection hold,
@@ -173,3 +190,13 @@ Example C10_ex_round0_outside :
   length (consensus_keys ex_cfg all (Some (mkrec 10 (f4_epoch + 100 * Consts.QOneDay) Pledging 10)) 0 ts) = 10%nat /\
   consensus_threshold ex_cfg all ts true = 7.
 Proof. vm_compute. repeat split. Qed.
+
+(* order independence on a concrete history: distinct keys, reversed order *)
+Example C10_ex_order :
+  distinct_keys f4_recs /\ Permutation f4_recs (rev f4_recs) /\
+  consensus_keys f4_cfg (load (rev f4_recs)) (Some f4_pledger) 0 f4_ts = [1; 2; 3; 4; 5; 6; 7; 8]%N /\
+  consensus_threshold f4_cfg (load (rev f4_recs)) f4_ts true = 5.
+Proof.
+  split; [apply distinct_keys_dec; vm_compute; reflexivity|].
+  split; [apply Permutation_rev|]. vm_compute. split; reflexivity.
+Qed.
